@@ -1088,10 +1088,29 @@ func (vc *FuncVC) evalCall(env *Env, x *ECall) *CVal {
 			if site < 0 {
 				panic(fmt.Errorf("%s(%s, %d, …): bad site index", name, id.Name, site))
 			}
-		} else if len(sts) > 1 {
-			panic(fmt.Errorf("%s(%s, …): the label has %d executed call sites before this point (give the site index)", name, id.Name, len(sts)))
 		}
 		n := *env
+		if len(x.Args) == 2 && len(sts) > 1 && !env.callee {
+			// several call sites and no index: the heap of whichever site this path executed
+			// (meaningful when the label was called once, i.e. under calls(L) == 1)
+			key := fmt.Sprintf("join|%s|%s|%d", name, id.Name, len(sts))
+			if vc.midStates == nil {
+				vc.midStates = map[string]*State{}
+			}
+			st, ok := vc.midStates[key]
+			if !ok {
+				st = vc.newState(stJoin, nil)
+				for i, s0 := range sts {
+					st.preds = append(st.preds, predEdge{vc.callGuard[id.Name][i], s0})
+				}
+				vc.midStates[key] = st
+			}
+			n.st = st
+			if n.logSt == nil {
+				n.logSt = env.st
+			}
+			return vc.eval(&n, x.Args[1])
+		}
 		if env.callee {
 			// a callee's clause about one of its intermediate heaps: some heap the caller
 			// knows nothing about (one per call, label, site and side)
